@@ -21,18 +21,22 @@ type globEntry struct {
 }
 
 type globPat struct {
-	Comps [][]string     `json:"comps"`
-	Slash bool           `json:"slash"`
-	Exp   [][][]string   `json:"exp"`
-	Obs   *globPatObs    `json:"obs,omitempty"`
+	Comps  [][]string   `json:"comps"`
+	Slash  bool         `json:"slash"`
+	Abs    bool         `json:"abs"`
+	Rep    int          `json:"rep"`
+	Exp    [][][]string `json:"exp"`
+	ExpStr [][]string   `json:"expstr"`
+	Obs    *globPatObs  `json:"obs,omitempty"`
 }
 
 type globPatObs struct {
 	Text    string       `json:"text"`
-	Res     [][][]string `json:"res"`     // result paths as names as symbols, entries through "." / ".." removed
-	Dots    int          `json:"dots"`    // results with a "." or ".." component (optional members)
+	Strs    [][]string   `json:"strs"` // result strings as symbols (ROOT for the scratch directory), "." / ".." entries removed
+	Res     [][][]string `json:"res"`  // result paths as names as symbols, entries through "." / ".." removed
+	Dots    int          `json:"dots"` // results with a "." or ".." component (optional members)
 	Err     string       `json:"err"`
-	Sorted  bool         `json:"sorted"`  // ascending byte order
+	Sorted  bool         `json:"sorted"` // ascending byte order
 	NoDup   bool         `json:"nodup"`
 	Lstat   bool         `json:"lstat"`   // every returned path exists
 	SlashOK bool         `json:"slashok"` // every result ends in a slash iff the pattern does
@@ -48,7 +52,7 @@ type globCase struct {
 func nameOf(syms []string) string { return symbols(syms) }
 
 func runGlobPat(p globPat) (o *globPatObs) {
-	o = &globPatObs{Res: [][][]string{}, Sorted: true, NoDup: true, Lstat: true, SlashOK: true}
+	o = &globPatObs{Res: [][][]string{}, Strs: [][]string{}, Sorted: true, NoDup: true, Lstat: true, SlashOK: true}
 	defer func() {
 		if e := recover(); e != nil {
 			o.Panic = panicString(e)
@@ -58,9 +62,18 @@ func runGlobPat(p globPat) (o *globPatObs) {
 	for i, c := range p.Comps {
 		parts[i] = symbols(c)
 	}
-	o.Text = strings.Join(parts, "/")
+	sep := "/"
+	if p.Rep == 2 {
+		sep = "//"
+	}
+	o.Text = strings.Join(parts, sep)
 	if p.Slash {
-		o.Text += "/"
+		o.Text += sep
+	}
+	root := ""
+	if p.Abs {
+		root, _ = os.Getwd()
+		o.Text = root + "/" + o.Text
 	}
 	res, err := pattern.Glob(o.Text)
 	if err != nil {
@@ -85,10 +98,20 @@ func runGlobPat(p globPat) (o *globPatObs) {
 		if strings.HasSuffix(r, "/") != p.Slash {
 			o.SlashOK = false
 		}
-		names := strings.Split(strings.TrimSuffix(r, "/"), "/")
+		rel := r
+		str := []string{}
+		if p.Abs && strings.HasPrefix(r, root+"/") {
+			rel = r[len(root)+1:]
+			str = append(str, "ROOT", "/")
+		}
+		str = append(str, toSymbols(rel)...)
+		names := strings.Split(strings.TrimRight(rel, "/"), "/")
 		dot := false
 		path := [][]string{}
 		for _, n := range names {
+			if n == "" {
+				continue
+			}
 			if n == "." || n == ".." {
 				dot = true
 			}
@@ -99,6 +122,7 @@ func runGlobPat(p globPat) (o *globPatObs) {
 			continue
 		}
 		o.Res = append(o.Res, path)
+		o.Strs = append(o.Strs, str)
 	}
 	return
 }
